@@ -112,11 +112,30 @@ Proof.
   destruct (first_def s (imports_of s cur) name); reflexivity.
 Qed.
 
-Lemma new_import_src_doc rec stk cur imp s : new_import rec stk cur imp s = new_import_doc rec stk cur imp s.
-Proof. unfold new_import, register_import_always, stack_balanced, nested_ops. reflexivity. Qed.
+Lemma abs_import_src_doc main cur imp : has_dot main = false -> abs_import_src main cur imp = abs_import cur imp.
+Proof.
+  intro Hm. unfold abs_import_src. destruct (main_in_root && str_eqb cur main) eqn:E; [|reflexivity].
+  apply andb_true_iff in E as [_ E]. apply str_eqb_eq in E. subst cur.
+  unfold abs_import, rel_import. rewrite (rsplit1_nodot _ Hm). reflexivity.
+Qed.
+
+Lemma abs_import_main main imp : abs_import_src main main imp = norm_dots imp.
+Proof. unfold abs_import_src, main_in_root, normalise_import. rewrite str_eqb_refl. reflexivity. Qed.
+
+Lemma new_import_src_doc main rec stk cur imp s : has_dot main = false ->
+  new_import main rec stk cur imp s = new_import_doc rec stk cur imp s.
+Proof.
+  intro Hm. unfold new_import, new_import_doc, stack_balanced, nested_ops, register_import_always.
+  cbn [nops_eqb nop_eqb andb negb]. rewrite (abs_import_src_doc _ _ _ Hm).
+  destruct (has_err s) eqn:E; [reflexivity|]. destruct (has_ns s (abs_import cur imp)); [|reflexivity].
+  destruct (mem_str (abs_import cur imp) stk); unfold has_err in *; cbn [serr note_back]; rewrite E; reflexivity.
+Qed.
 
 Lemma abs_import_normalised cur imp : abs_import cur imp = norm_dots (rel_import cur imp).
 Proof. unfold abs_import, normalise_import. reflexivity. Qed.
+
+Lemma main_in_root_doc : main_in_root = true.
+Proof. reflexivity. Qed.
 
 Lemma initial_imports_base : initial_imports = [BASE].
 Proof. reflexivity. Qed.
@@ -228,9 +247,9 @@ Section LoadRel.
   Hypothesis R_second : forall ns f s, serr s = None -> aget ns fs = Some f -> R s (second_pass ns f s).
 
   Lemma new_import_rel rec stk cur imp s :
-    (forall a t, R t (rec a t)) -> R s (new_import rec stk cur imp s).
+    (forall a t, R t (rec a t)) -> R s (new_import_doc rec stk cur imp s).
   Proof.
-    intro Hrec. rewrite new_import_src_doc. unfold new_import_doc. destruct (has_err s) eqn:He; [apply R_refl|].
+    intro Hrec. unfold new_import_doc. destruct (has_err s) eqn:He; [apply R_refl|].
     apply has_err_false in He.
     set (a := abs_import cur imp).
     set (s1 := if has_ns s a then if mem_str a stk then note_back cur a s else s else rec a (enter a s)).
@@ -244,10 +263,10 @@ Section LoadRel.
 
   Lemma fold_imports_rel rec stk cur imps s :
     (forall a t, R t (rec a t)) ->
-    R s (fold_left (fun s imp => new_import rec stk cur imp s) imps s).
+    R s (fold_left (fun s imp => new_import_doc rec stk cur imp s) imps s).
   Proof.
     intro Hrec. revert s. induction imps as [|i imps IH]; intro s; cbn [fold_left]; [apply R_refl|].
-    apply (R_trans _ (new_import rec stk cur i s)); [apply new_import_rel; exact Hrec | apply IH].
+    apply (R_trans _ (new_import_doc rec stk cur i s)); [apply new_import_rel; exact Hrec | apply IH].
   Qed.
 
   Lemma new_class_err ns r s : serr s <> None -> new_class ns r s = s.
@@ -685,11 +704,11 @@ Proof.
 Qed.
 
 (* ------------------------------------------------------------------ the main induction *)
-Lemma new_import_err rec stk cur imp s : serr s <> None -> new_import rec stk cur imp s = s.
-Proof. intro H. rewrite new_import_src_doc. unfold new_import_doc, has_err. destruct (serr s); [reflexivity | contradiction]. Qed.
+Lemma new_import_err rec stk cur imp s : serr s <> None -> new_import_doc rec stk cur imp s = s.
+Proof. intro H. unfold new_import_doc, has_err. destruct (serr s); [reflexivity | contradiction]. Qed.
 
 Lemma fold_imports_err rec stk cur imps : forall s, serr s <> None ->
-  fold_left (fun s imp => new_import rec stk cur imp s) imps s = s.
+  fold_left (fun s imp => new_import_doc rec stk cur imp s) imps s = s.
 Proof.
   induction imps as [|i imps IH]; intros s H; cbn [fold_left]; [reflexivity|].
   rewrite new_import_err by exact H. apply IH. exact H.
@@ -741,12 +760,12 @@ Section Main2.
 
   Lemma import_step fuel stk ns s0 pre imp t : LoadSpec fuel ->
     Mid stk ns s0 pre t ->
-    serr (new_import (load_doc fuel fs (ns :: stk)) (ns :: stk) ns imp t) = None ->
-    Mid stk ns s0 (pre ++ [imp]) (new_import (load_doc fuel fs (ns :: stk)) (ns :: stk) ns imp t).
+    serr (new_import_doc (load_doc fuel fs (ns :: stk)) (ns :: stk) ns imp t) = None ->
+    Mid stk ns s0 (pre ++ [imp]) (new_import_doc (load_doc fuel fs (ns :: stk)) (ns :: stk) ns imp t).
   Proof.
     intros IH (HG & Hns & Himp & Hdone & Hframe & Hhas).
     pose proof HG as (He & Hcf & Hbc & Hdi & Hlk & Hos).
-    rewrite new_import_src_doc. unfold new_import_doc. rewrite (proj2 (has_err_false t) He).
+    unfold new_import_doc. rewrite (proj2 (has_err_false t) He).
     set (a := abs_import ns imp).
     assert (Hpre : map (abs_import ns) (pre ++ [imp]) = map (abs_import ns) pre ++ [a]) by (rewrite map_app; reflexivity).
     destruct (has_ns t a) eqn:Ha.
@@ -827,13 +846,13 @@ Section Main2.
 
   Lemma import_fold fuel stk ns s0 : LoadSpec fuel -> forall rest pre t,
     Mid stk ns s0 pre t ->
-    serr (fold_left (fun s imp => new_import (load_doc fuel fs (ns :: stk)) (ns :: stk) ns imp s) rest t) = None ->
+    serr (fold_left (fun s imp => new_import_doc (load_doc fuel fs (ns :: stk)) (ns :: stk) ns imp s) rest t) = None ->
     Mid stk ns s0 (pre ++ rest)
-        (fold_left (fun s imp => new_import (load_doc fuel fs (ns :: stk)) (ns :: stk) ns imp s) rest t).
+        (fold_left (fun s imp => new_import_doc (load_doc fuel fs (ns :: stk)) (ns :: stk) ns imp s) rest t).
   Proof.
     intros IH. induction rest as [|i rest IHr]; intros pre t HM He; cbn [fold_left] in *.
     - rewrite app_nil_r. exact HM.
-    - set (t1 := new_import (load_doc fuel fs (ns :: stk)) (ns :: stk) ns i t) in *.
+    - set (t1 := new_import_doc (load_doc fuel fs (ns :: stk)) (ns :: stk) ns i t) in *.
       assert (He1 : serr t1 = None).
       { destruct (serr t1) eqn:E; [|reflexivity]. rewrite fold_imports_err in He by (rewrite E; discriminate). congruence. }
       replace (pre ++ i :: rest) with ((pre ++ [i]) ++ rest) by (rewrite <- app_assoc; reflexivity).
@@ -1070,9 +1089,9 @@ Section Once.
     NL s -> ~ In ns (loads s) -> has_ns s ns = true -> NL (load_doc fuel fs stk ns s).
 
   Lemma NL_import fuel stk cur imp t : OnceSpec fuel -> NL t ->
-    NL (new_import (load_doc fuel fs stk) stk cur imp t).
+    NL (new_import_doc (load_doc fuel fs stk) stk cur imp t).
   Proof.
-    intros IH H. rewrite new_import_src_doc. unfold new_import_doc. destruct (has_err t); [exact H|].
+    intros IH H. unfold new_import_doc. destruct (has_err t); [exact H|].
     set (a := abs_import cur imp).
     destruct (has_ns t a) eqn:Ha.
     - set (s1 := if mem_str a stk then note_back cur a t else t).
@@ -1087,7 +1106,7 @@ Section Once.
   Qed.
 
   Lemma NL_imports fuel stk cur imps : OnceSpec fuel -> forall t, NL t ->
-    NL (fold_left (fun s imp => new_import (load_doc fuel fs stk) stk cur imp s) imps t).
+    NL (fold_left (fun s imp => new_import_doc (load_doc fuel fs stk) stk cur imp s) imps t).
   Proof.
     intro IH. induction imps as [|i imps IHi]; intros t H; cbn [fold_left]; [exact H|].
     apply IHi. apply NL_import; assumption.
@@ -1166,9 +1185,9 @@ Section Term.
   Proof. intro H. unfold unl, unl_in, has_ns. rewrite H. reflexivity. Qed.
 
   Lemma term_import fuel stk cur imp t : TermSpec fuel -> NF t -> unl t <= fuel ->
-    NF (new_import (load_doc fuel fs stk) stk cur imp t) /\ unl (new_import (load_doc fuel fs stk) stk cur imp t) <= fuel.
+    NF (new_import_doc (load_doc fuel fs stk) stk cur imp t) /\ unl (new_import_doc (load_doc fuel fs stk) stk cur imp t) <= fuel.
   Proof.
-    intros IH Hn Hu. rewrite new_import_src_doc. unfold new_import_doc. destruct (has_err t); [split; assumption|].
+    intros IH Hn Hu. unfold new_import_doc. destruct (has_err t); [split; assumption|].
     set (a := abs_import cur imp).
     destruct (has_ns t a) eqn:Ha.
     - set (s1 := if mem_str a stk then note_back cur a t else t).
@@ -1193,7 +1212,7 @@ Section Term.
   Qed.
 
   Lemma term_imports fuel stk cur imps : TermSpec fuel -> forall t, NF t -> unl t <= fuel ->
-    NF (fold_left (fun s imp => new_import (load_doc fuel fs stk) stk cur imp s) imps t).
+    NF (fold_left (fun s imp => new_import_doc (load_doc fuel fs stk) stk cur imp s) imps t).
   Proof.
     intro IH. induction imps as [|i imps IHi]; intros t Hn Hu; cbn [fold_left]; [exact Hn|].
     destruct (term_import fuel stk cur i t IH Hn Hu) as [A B]. apply IHi; assumption.
@@ -1251,10 +1270,10 @@ Section Count.
     serr (load_doc fuel fs stk ns s) = None -> Delta s (load_doc fuel fs stk ns s).
 
   Lemma count_import fuel stk cur imp t : CountSpec fuel ->
-    serr (new_import (load_doc fuel fs stk) stk cur imp t) = None ->
-    Delta t (new_import (load_doc fuel fs stk) stk cur imp t).
+    serr (new_import_doc (load_doc fuel fs stk) stk cur imp t) = None ->
+    Delta t (new_import_doc (load_doc fuel fs stk) stk cur imp t).
   Proof.
-    intros IH. rewrite new_import_src_doc. unfold new_import_doc. destruct (has_err t); [intros _; apply Delta_refl|].
+    intros IH. unfold new_import_doc. destruct (has_err t); [intros _; apply Delta_refl|].
     set (a := abs_import cur imp).
     destruct (has_ns t a) eqn:Ha.
     - set (s1 := if mem_str a stk then note_back cur a t else t).
@@ -1268,11 +1287,11 @@ Section Count.
   Qed.
 
   Lemma count_imports fuel stk cur imps : CountSpec fuel -> forall t,
-    serr (fold_left (fun s imp => new_import (load_doc fuel fs stk) stk cur imp s) imps t) = None ->
-    Delta t (fold_left (fun s imp => new_import (load_doc fuel fs stk) stk cur imp s) imps t).
+    serr (fold_left (fun s imp => new_import_doc (load_doc fuel fs stk) stk cur imp s) imps t) = None ->
+    Delta t (fold_left (fun s imp => new_import_doc (load_doc fuel fs stk) stk cur imp s) imps t).
   Proof.
     intro IH. induction imps as [|i imps IHi]; intros t He; cbn [fold_left] in *; [apply Delta_refl|].
-    set (t1 := new_import (load_doc fuel fs stk) stk cur i t) in *.
+    set (t1 := new_import_doc (load_doc fuel fs stk) stk cur i t) in *.
     assert (He1 : serr t1 = None).
     { destruct (serr t1) eqn:E; [|reflexivity]. rewrite fold_imports_err in He by (rewrite E; discriminate). congruence. }
     apply (Delta_trans _ t1); [apply count_import; assumption | apply IHi; exact He].
@@ -1349,52 +1368,53 @@ Lemma new_import_doc_ext rec rec' stk cur imp s : (forall a t, rec a t = rec' a 
   new_import_doc rec stk cur imp s = new_import_doc rec' stk cur imp s.
 Proof. intro H. unfold new_import_doc. rewrite H. reflexivity. Qed.
 
-Lemma load_src_doc fs : forall fuel stk ns s, load fuel fs stk ns s = load_doc fuel fs stk ns s.
+Lemma load_src_doc fs main : has_dot main = false ->
+  forall fuel stk ns s, load main fuel fs stk ns s = load_doc fuel fs stk ns s.
 Proof.
-  induction fuel as [|fuel IH]; intros stk ns s; cbn [load load_doc]; [reflexivity|].
+  intro Hm. induction fuel as [|fuel IH]; intros stk ns s; cbn [load load_doc]; [reflexivity|].
   destruct (has_err s); [reflexivity|]. destruct (aget ns fs) as [f|]; [|reflexivity].
   unfold imports_in_text_order, second_pass_inside_import. cbv zeta.
-  rewrite (fold_left_ext _ (fun s imp => new_import (load_doc fuel fs (ns :: stk)) (ns :: stk) ns imp s)); [reflexivity|].
-  intros a b. rewrite !new_import_src_doc. apply new_import_doc_ext. intros x t. apply IH.
+  rewrite (fold_left_ext _ (fun s imp => new_import_doc (load_doc fuel fs (ns :: stk)) (ns :: stk) ns imp s)); [reflexivity|].
+  intros a b. rewrite (new_import_src_doc _ _ _ _ _ _ Hm). apply new_import_doc_ext. intros x t. apply IH.
 Qed.
 
-Lemma load_main_src_doc fs main : load_main fs main = load_main_doc fs main.
-Proof. unfold load_main, load_main_doc, second_pass_inside_import. cbv zeta. apply load_src_doc. Qed.
+Lemma load_main_src_doc fs main : has_dot main = false -> load_main fs main = load_main_doc fs main.
+Proof. intro Hm. unfold load_main, load_main_doc, second_pass_inside_import. cbv zeta. apply load_src_doc. exact Hm. Qed.
 
 (* the statements about metamodel_from_file as the source performs it *)
-Lemma links_spec_src fs main : aget BASE fs = None -> main <> BASE ->
+Lemma links_spec_src fs main : has_dot main = false -> aget BASE fs = None -> main <> BASE ->
   serr (load_main fs main) = None -> backs (load_main fs main) = [] ->
   forall l, In l (links (load_main fs main)) -> link_ok fs l.
-Proof. rewrite load_main_src_doc. apply links_spec. Qed.
+Proof. intro Hm. rewrite (load_main_src_doc _ _ Hm). apply links_spec. Qed.
 
-Lemma links_spec_safe_src fs main : aget BASE fs = None -> main <> BASE ->
+Lemma links_spec_safe_src fs main : has_dot main = false -> aget BASE fs = None -> main <> BASE ->
   serr (load_main fs main) = None -> safe fs (load_main fs main) = true ->
   forall l, In l (links (load_main fs main)) -> link_ok fs l.
-Proof. rewrite load_main_src_doc. apply links_spec_safe. Qed.
+Proof. intro Hm. rewrite (load_main_src_doc _ _ Hm). apply links_spec_safe. Qed.
 
-Lemma final_lookup_src fs main : aget BASE fs = None -> main <> BASE -> serr (load_main fs main) = None ->
+Lemma final_lookup_src fs main : has_dot main = false -> aget BASE fs = None -> main <> BASE -> serr (load_main fs main) = None ->
   forall name c, lookup (load_main fs main) main name = Some c -> Some (cls_key c) = spec_resolve fs main name.
-Proof. rewrite load_main_src_doc. apply final_lookup. Qed.
+Proof. intro Hm. rewrite (load_main_src_doc _ _ Hm). apply final_lookup. Qed.
 
-Lemma final_lookup_none_src fs main : aget BASE fs = None -> main <> BASE -> serr (load_main fs main) = None ->
+Lemma final_lookup_none_src fs main : has_dot main = false -> aget BASE fs = None -> main <> BASE -> serr (load_main fs main) = None ->
   forall name, has_dot name = false -> lookup (load_main fs main) main name = None -> spec_resolve fs main name = None.
-Proof. rewrite load_main_src_doc. apply final_lookup_none. Qed.
+Proof. intro Hm. rewrite (load_main_src_doc _ _ Hm). apply final_lookup_none. Qed.
 
-Lemma classes_fqn_src fs main : main <> BASE ->
+Lemma classes_fqn_src fs main : has_dot main = false -> main <> BASE ->
   forall a n c, lookup_in (load_main fs main) a n = Some c ->
     c_ns c = a /\ c_name c = n /\ fqn c = (if str_eqb a BASE then n else a ++ DOT :: n).
-Proof. rewrite load_main_src_doc. apply classes_fqn. Qed.
+Proof. intro Hm. rewrite (load_main_src_doc _ _ Hm). apply classes_fqn. Qed.
 
-Lemma one_class_set_src fs main : main <> BASE ->
+Lemma one_class_set_src fs main : has_dot main = false -> main <> BASE ->
   (forall a n c a' n' c',
      lookup_in (load_main fs main) a n = Some c -> lookup_in (load_main fs main) a' n' = Some c' ->
      c_id c = c_id c' -> a = a' /\ n = n') /\
   (serr (load_main fs main) = None ->
    created (load_main fs main) = length base_names + nrules_of fs (loads (load_main fs main))).
-Proof. rewrite load_main_src_doc. apply one_class_set. Qed.
+Proof. intro Hm. rewrite (load_main_src_doc _ _ Hm). apply one_class_set. Qed.
 
-Lemma loads_once_src fs main : main <> BASE -> NoDup (loads (load_main fs main)).
-Proof. rewrite load_main_src_doc. apply loads_once. Qed.
+Lemma loads_once_src fs main : has_dot main = false -> main <> BASE -> NoDup (loads (load_main fs main)).
+Proof. intro Hm. rewrite (load_main_src_doc _ _ Hm). apply loads_once. Qed.
 
-Lemma load_main_terminates_src fs main : serr (load_main fs main) <> Some EFuel.
-Proof. rewrite load_main_src_doc. apply load_main_terminates. Qed.
+Lemma load_main_terminates_src fs main : has_dot main = false -> serr (load_main fs main) <> Some EFuel.
+Proof. intro Hm. rewrite (load_main_src_doc _ _ Hm). apply load_main_terminates. Qed.
